@@ -19,12 +19,14 @@ def obligations(tier):
         obs.append(Ob(id=f'inversion/n{n}', harness='C12/solvers.c', tus=T, defs={'HP_WHICH': 0, 'HP_N': n}, engine='real', unwind=10, timeout=to, clause='M * M^-1 = I',
                       stubs=R, real={'nomissing': True, 'divnz_if_excluded': True}, kf='C12_no_pivoting'))
     for n in (1, 2):
+        obs.append(Ob(id=f'inversion_reused_output/n{n}', harness='C12/solvers.c', tus=T, defs={'HP_WHICH': 0, 'HP_N': n, 'HP_PREFILL': 1}, engine='real', unwind=10, timeout=to, clause='M * M^-1 = I', stubs=R, real={'nomissing': True, 'divnz_if_excluded': True}))
         obs.append(Ob(id=f'solvelse/n{n}', harness='C12/solvers.c', tus=T, defs={'HP_WHICH': 1, 'HP_N': n}, engine='real', unwind=10, timeout=to, clause='A x = b', stubs=R, real={'nomissing': True}))
     for n in ((1, 2, 3) if not th else (1, 2, 3, 4)):
         obs.append(Ob(id=f'determinant/n{n}', harness='C12/solvers.c', tus=T, defs={'HP_WHICH': 2, 'HP_N': n}, engine='real', unwind=12, timeout=to, clause='determinant', stubs=R + ('sym_pow_int.c',), real={'nomissing': True}))
     for (n, p) in ([(3, 1), (4, 1)] if not th else [(3, 1), (4, 1), (3, 2), (4, 2)]):
-        obs.append(Ob(id=f'ols/n{n}p{p}', harness='C12/solvers.c', tus=T, defs={'HP_WHICH': 3, 'HP_N': n, 'HP_P': p}, engine='real', unwind=10, timeout=to, clause='least squares: normal equations',
-                      stubs=R, real={'nomissing': True}))
+        for pf in (0, 1):
+            obs.append(Ob(id=f'ols/n{n}p{p}/{"reused_output" if pf else "fresh_output"}', harness='C12/solvers.c', tus=T, defs={'HP_WHICH': 3, 'HP_N': n, 'HP_P': p, 'HP_PREFILL': pf}, engine='real', unwind=10, timeout=to, clause='least squares: normal equations',
+                          stubs=R, real={'nomissing': True}))
     for (r, c) in [(1, 1), (2, 2), (3, 3), (3, 2), (2, 3)]:
         obs.append(Ob(id=f'svdlapack/{r}x{c}', harness='C12/lapack.c', tus=T, defs={'HP_WHICH': 0, 'HP_R': r, 'HP_C': c}, engine='bits', unwind=40, timeout=300, clause='LAPACK wrappers: memory safety and output shapes',
                       stubs=('sym_lapack_contract.c', 'sym_bits_env.c'), kf='C12_svdlapack_rect' if r != c else '', object_bits=10))
